@@ -260,7 +260,7 @@ namespace Givaro
     inline std::istream&
     ModularBalanced<float>::read(std::istream& is, Element& x) const
     {
-        Element tmp;
+        Element tmp = 0;
         is >> tmp;
         init(x, tmp);
         return is;
